@@ -265,7 +265,16 @@ def work(unit):
             kk = 1
         elif n == 5 and tier == "quick":
             kk = min(k, 1) if len(inds) > 5 else k
+        # second size assignment: huge odd dimensions (prime powers around
+        # 1e6..1e8), figures far beyond 2**53 - definitions only, nothing
+        # can be executed at that size
+        variants = [(sd, True)]
+        if name in ("F", "U332"):
+            sd_big = {ix: (v ** (18 // max(1, v.bit_length() - 1) + 3)
+                           if v > 1 else 1) for ix, v in sd.items()}
+            variants.append((sd_big, False))
         for nested in U.all_trees(range(n)):
+          for sd, can_exec in variants:
             for sl in subsets(inds, kk):
                 preludes = ("none",)
                 if n >= 3 and (name == "F" and len(sl) <= 1 or
@@ -277,11 +286,12 @@ def work(unit):
                             "prelude": prelude}
                     try:
                         bad = check_case(inp0, out0, sd, nested, sl, tier,
-                                         seed, res, do_exec=(len(sl) <= 1),
+                                         seed, res,
+                                         do_exec=(can_exec and len(sl) <= 1),
                                          prelude=prelude)
                     except Exception as e:
                         bad = [("exception", repr(e))]
-                    res.key((inp0, out0, nested, sl, prelude))
+                    res.key((inp0, out0, nested, sl, prelude, can_exec))
                     if bad:
                         res.violation(
                             "cost-mismatch:" + str(bad[0][0])
